@@ -235,13 +235,42 @@ fn run(args: &Args) -> i32 {
     }
     w.flush();
     let _ = std::fs::remove_dir_all(&tmp_root);
+    // ---- TaskQueue level: two different follow-up tasks must be two queue entries (task names are
+    // concatenations of handles and literals; see coq/queue/TaskName.v)
+    let mut impl_failures: Vec<serde_json::Value> = Vec::new();
+    let mut name_pairs = 0u64;
+    {
+        use krill::server::mq::{now, Task};
+        use std::str::FromStr;
+        let handles = ["a", "b", "c", "x-y", "a_with_parent_b", "b_with_parent_c"];
+        let mut pairs: Vec<(&str, &str)> = Vec::new();
+        for ca in handles { for p in handles { pairs.push((ca, p)); } }
+        for i in 0..pairs.len() { for j in (i + 1)..pairs.len() {
+            let (c1, p1) = pairs[i]; let (c2, p2) = pairs[j];
+            // a sample of all pairs plus every adversarial one
+            let adversarial = c1.contains('_') || p1.contains('_') || c2.contains('_') || p2.contains('_');
+            if !adversarial && rng.chance(85) { continue }
+            let storage = StorageSystem::new_memory(Some(args.seed.wrapping_add(77_000 + (i * 100 + j) as u64)));
+            let tq = TaskQueue::new(&storage).expect("taskqueue");
+            let mk = |c: &str, p: &str| Task::SyncParent { ca_handle: rpki::ca::idexchange::CaHandle::from_str(c).unwrap(), ca_version: 0, parent: rpki::ca::idexchange::ParentHandle::from_str(p).unwrap() };
+            tq.schedule(mk(c1, p1), now()).expect("schedule");
+            tq.schedule(mk(c2, p2), now()).expect("schedule");
+            let store = storage.open(TASK_QUEUE_NS).expect("store");
+            let n = store.keys(Some(&ident("pending")), "").map(|k| k.len()).unwrap_or(0);
+            name_pairs += 1;
+            if n != 2 {
+                impl_failures.push(json!({"index": null, "class": {"task_name_collision": true},
+                    "what": format!("SyncParent(ca={c1}, parent={p1}) and SyncParent(ca={c2}, parent={p2}) share one queue name: only {n} pending entr{}", if n == 1 {"y"} else {"ies"})}));
+            }
+        }}
+    }
     write_json(&args.out.join("stats.json"), &json!({
         "scenario": "c09", "seed": args.seed, "tier": args.tier,
         "sequences": n_seq, "evaluations": w.total, "distinct_nontrivial": distinct.len(),
         "rule": "random schedule/claim/finish/reschedule/restart sequences (len 3..30, 1..6 names plus the start-up task, far-past or far-future timestamps) on the real Queue/TaskQueue, 3/4 memory and 1/4 disk back-end; a case is one observed transition (pre-state, operation, post-state, result); non-trivial = pre-state not empty; distinct = distinct canonical case terms",
         "op_distribution": op_hist, "result_distribution": res_hist,
         "restarts_by_number_of_running_tasks": restart_running_hist.iter().map(|(k, v)| (k.to_string(), *v)).collect::<BTreeMap<_, _>>(),
-        "samples": samples,
+        "samples": samples, "task_name_pairs_checked": name_pairs, "impl_failures": impl_failures,
     }));
     println!("c09: {} cases from {} sequences", w.total, n_seq);
     0
